@@ -31,6 +31,8 @@
 #include "meta.h"
 #include "node.h"
 #include "parse.h"
+#include "types.h"
+#include "config.h"
 #include "vf.h"
 
 const char *vf_name = "c14_node";
@@ -530,7 +532,9 @@ static void compare_node(const char *op, const MPT_STRUCT(node) *s, MPT_STRUCT(n
 	} else {
 		int sm = meta_index(s->_meta);
 		VF_CHECK(c->_meta != 0, K(op, "clone-value"), "copy of node %d has no value", si);
-		VF_CHECK(c->_meta != s->_meta, K(op, "clone-shares-value"), "copy of node %d holds the same metatype instance without a reference", si);
+		/* the library's shared default value (static, clone returns itself) may be held by both */
+		VF_CHECK(c->_meta != s->_meta || s->_meta == mpt_metatype_default(), K(op, "clone-shares-value"),
+		         "copy of node %d holds the same metatype instance without a reference", si);
 		m = meta_index(c->_meta);
 		if (sm >= 0) {
 			VF_CHECK(m >= 0, K(op, "clone-value"), "copy of node %d has a metatype that did not come from the value's clone()", si);
@@ -1104,6 +1108,71 @@ static int op_concat(vf_rng *r)
 	return up ? 2 : 1;
 }
 
+/* trees built and extended through mpt_node_assign(): one call creates all
+ * missing levels of a multi-element path below a top-level list (empty or
+ * populated) or below the child list of a node that has children */
+static int op_assign(vf_rng *r)
+{
+	static const char *en[] = { "a", "b", "cc", "dd", "e1", "e2", "e3", "" };
+	char text[96], vbuf[12];
+	size_t tl = 0;
+	int levels = 1 + (int) vf_below(r, 6), where = (int) vf_below(r, 10), bi = -1, par = -1, grp;
+	MPT_STRUCT(node) *head = 0, **base = &head;
+	if (alive_count() > LIVE_MAX - 6) return 0;
+	if (where >= 2 && where < 6) bi = pick(r, p_has_children, 0);          /* below a populated node */
+	else if (where >= 6) { bi = pick(r, 0, 0); if (bi >= 0) { while (N[bi].par >= 0) bi = N[bi].par; } }  /* existing top-level list */
+	if (where >= 2 && where < 6 && bi >= 0) { base = &N[bi].n->children; par = bi; grp = N[bi].grp; }
+	else if (bi >= 0) { head = head_of(N[bi].n); grp = N[bi].grp; }
+	else grp = next_grp++;                                                 /* empty tree */
+	for (int k = 0; k < levels; k++) {
+		const char *nm = en[vf_below(r, vf_chance(r, 1, 8) ? 8 : 7)];
+		tl += (size_t) snprintf(text + tl, sizeof(text) - tl, "%s%s", k ? "." : "", nm);
+	}
+	MPT_STRUCT(path) p = MPT_PATH_INIT;
+	mpt_path_set(&p, text, -1);
+	int withval = vf_chance(r, 2, 3), before = alive_count();
+	const char *vp = vbuf;
+	snprintf(vbuf, sizeof(vbuf), "w%u", vf_below(r, 1000));
+	MPT_STRUCT(value) val = MPT_VALUE_INIT('s', &vp);
+	MPT_STRUCT(node) *oldhead = *base;
+	cur_op = "node_assign";
+	vf_at("mpt_node_assign");
+	vf_count("mpt_node_assign", 1);
+	vf_log("node_assign(%s, '%s'%s)", par >= 0 ? "children of a node" : head ? "top-level list" : "empty tree", text, withval ? ", value" : "");
+	if (par >= 0) vf_log("  below node %d", par);
+	vf_fp_u64(0xE00 + (uint64_t) levels * 16 + (uint64_t) where);
+	vf_fp(text, tl);
+	/* metatype pointers before: an existing target node gets a new value */
+	snapshot();
+	MPT_STRUCT(node) *ret = mpt_node_assign(base, &p, withval ? &val : 0);
+	VF_CHECK(ret != 0, K(cur_op, "refused"), "returned NULL for path '%s'", text);
+	VF_CHECK(oldhead ? *base == oldhead : *base != 0, K(cur_op, "list-head"), "list reference %s", oldhead ? "was changed" : "not set for first element");
+	for (int j = 0; j < nn; j++) {
+		if (!N[j].alive || (void *) N[j].n->_meta == (void *) snaps[j].l[4]) continue;
+		VF_CHECK(N[j].n == ret, K(cur_op, "foreign-value-changed"), "value of node %d changed, the path denotes node %d", j, idx_of(ret));
+		if (N[j].meta >= 0) {
+			VF_CHECK(metas[N[j].meta].unrefs == 1, K(cur_op, "not-released"), "replaced value %d of node %d has %d releases", N[j].meta, j, metas[N[j].meta].unrefs);
+			++expected_unrefs;
+			N[j].meta = -1;
+		}
+		N[j].foreign = 1;
+		vf_count("outcome:assign-replaced-value", 1);
+	}
+	register_foreign(*base, par, grp);
+	int created = alive_count() - before;
+	VF_CHECK(created <= levels, K(cur_op, "node-count"), "%d nodes created for a path of %d elements", created, levels);
+	VF_CHECK(idx_of(ret) >= 0, K(cur_op, "result-unreachable"), "returned node is not part of the target list/tree");
+	{
+		static const char *cn[] = { "state:assign-created-0", "state:assign-created-1", "state:assign-created-2", "state:assign-created-3",
+		                            "state:assign-created-4", "state:assign-created-5plus" };
+		vf_count(cn[created > 5 ? 5 : created], 1);
+	}
+	if (par >= 0) vf_count("state:assign-below-node", 1);
+	else if (oldhead) vf_count("state:assign-populated-list", 1);
+	else vf_count("state:assign-empty-tree", 1);
+	return created >= 2 ? 2 : 1;
+}
+
 static int op_parse(vf_rng *r)
 {
 	char text[512];
@@ -1156,8 +1225,8 @@ static int op_parse(vf_rng *r)
 
 /* ------------------------------------------------------------------ entry */
 enum { ONew, OAfter, OBefore, OGAdd, ONAdd, OGIns, ONIns, OUnlink, ODestroy, OClear, OCloneN, OCloneL, OCloneT,
-       OMove, OSwap, OSwitch, ORelink, ORelinkB, OLocate, ONext, OFind, OPos, OTraverse, OParse, OParseF, OConcat, OCount };
-static const uint8_t weights[OCount] = { 10, 5, 5, 8, 8, 12, 9, 5, 5, 2, 2, 4, 5, 8, 3, 5, 2, 2, 3, 2, 3, 2, 4, 3, 5, 5 };
+       OMove, OSwap, OSwitch, ORelink, ORelinkB, OLocate, ONext, OFind, OPos, OTraverse, OParse, OParseF, OConcat, OAssign, OCount };
+static const uint8_t weights[OCount] = { 10, 5, 5, 8, 8, 12, 9, 5, 5, 2, 2, 4, 5, 8, 3, 5, 2, 2, 3, 2, 3, 2, 4, 3, 5, 5, 7 };
 
 static void teardown(void)
 {
@@ -1221,6 +1290,7 @@ void vf_case(uint64_t idx, vf_rng *r)
 		case OParse: done = op_parse(r); break;
 		case OParseF: done = op_parse_file(r); break;
 		case OConcat: done = op_concat(r); break;
+		case OAssign: done = op_assign(r); break;
 		}
 		if (!done) continue;
 		check_all(cur_op);
